@@ -92,35 +92,48 @@ func blockToSeqPair(alignedBlock alignedBlockInfo, ref []byte) alignPair {
 		}
 	}
 
-	// copy the sequences into new slices
+	// copy the sequences into new slices (really copy them: the splicing below must not write
+	// into the arrays that back the incoming sequences)
 	refSeqArray := make([][]byte, len(alignedBlock.seqpairArray))
 	queSeqArray := make([][]byte, len(alignedBlock.seqpairArray))
 	for i := range alignedBlock.seqpairArray {
-		refSeqArray[i] = alignedBlock.seqpairArray[i].ref
-		queSeqArray[i] = alignedBlock.seqpairArray[i].query
+		refSeqArray[i] = append([]byte{}, alignedBlock.seqpairArray[i].ref...)
+		queSeqArray[i] = append([]byte{}, alignedBlock.seqpairArray[i].query...)
 	}
 
 	// if there are insertions, we need to modify these new slices
 	if len(insertions) > 0 {
-		sort.Sort(byStart(insertions))
+		sort.Stable(byStart(insertions))
 
-		// if we are going to insert multiple insertions into one pair then we will need to keep track
-		// of the coordinate offset after the first one
+		// the number of reference bases that each line spans (from the start of the reference)
+		refEnds := make([]int, len(alignedBlock.seqpairArray))
+		for j := range refSeqArray {
+			for _, nuc := range refSeqArray[j] {
+				if nuc != '-' {
+					refEnds[j]++
+				}
+			}
+		}
+
+		// for every line, the number of insertion columns (its own, and the ones spliced in from the
+		// other lines) that lie to the left of the insertion that is being processed
 		offsets := make([]int, len(alignedBlock.seqpairArray))
 
 		// for every insertion
 		for _, insertion := range insertions {
-			// this is the pair it is already present in, which we will skip:
+			// this is the pair it is already present in:
 			rowNumber := insertion.rowNumber
-			for j, seqPair := range alignedBlock.seqpairArray {
-				// don't reinsert - the insertion already exists in this one
+			for j := range alignedBlock.seqpairArray {
+				// don't reinsert - the insertion already exists in this one, but it does shift
+				// the coordinates of everything to its right in this line
 				if j == rowNumber {
+					offsets[j] += insertion.length
 					continue
 				}
 
-				// if the insertions starts after the (offset) length of this sequence,
+				// if the insertion starts after the end of this line,
 				// we don't have to do anything to this pair here
-				if insertion.start > len(alignedBlock.seqpairArray[j].ref)-offsets[j] {
+				if insertion.start > refEnds[j] {
 					continue
 				}
 
@@ -130,13 +143,19 @@ func blockToSeqPair(alignedBlock alignedBlockInfo, ref []byte) alignPair {
 					gaps[k] = '-'
 				}
 
-				refSeqArray[j] = refSeqArray[j][:insertion.start+offsets[j]]
-				refSeqArray[j] = append(refSeqArray[j], gaps...)
-				refSeqArray[j] = append(refSeqArray[j], seqPair.ref[insertion.start+offsets[j]:]...)
+				at := insertion.start + offsets[j]
 
-				queSeqArray[j] = seqPair.query[:insertion.start+offsets[j]]
-				queSeqArray[j] = append(queSeqArray[j], gaps...)
-				queSeqArray[j] = append(queSeqArray[j], seqPair.query[insertion.start+offsets[j]:]...)
+				newRef := make([]byte, 0, len(refSeqArray[j])+insertion.length)
+				newRef = append(newRef, refSeqArray[j][:at]...)
+				newRef = append(newRef, gaps...)
+				newRef = append(newRef, refSeqArray[j][at:]...)
+				refSeqArray[j] = newRef
+
+				newQue := make([]byte, 0, len(queSeqArray[j])+insertion.length)
+				newQue = append(newQue, queSeqArray[j][:at]...)
+				newQue = append(newQue, gaps...)
+				newQue = append(newQue, queSeqArray[j][at:]...)
+				queSeqArray[j] = newQue
 
 				// and we add the relevant offset to account for this insertion in future coordinates
 				offsets[j] += insertion.length
